@@ -138,8 +138,25 @@ func shortest(items []xlate.Item, n int) []hcase {
 	return out
 }
 
+// probes are parseable queries the translator must reject because they use a name that is not bound; whatever an
+// earlier translation defined (variables, aliases, parameters, generated identifiers) must not make them resolve.
+func probes() []hcase {
+	var out []hcase
+	for _, v := range []string{"n", "m", "r", "p", "x", "u", "c", "a", "z", "o", "n0", "n1", "e0", "s0", "i0", "pi0"} {
+		out = append(out, hcase{Text: "MATCH (zq) RETURN " + v, Variant: "nil-map"})
+		out = append(out, hcase{Text: "MATCH (zq) WHERE zq.name = $" + v + " RETURN zq", Variant: "all:string"})
+	}
+	// a second parameter named like a parameter of an earlier query must still get its own identifier
+	for _, v := range []string{"p", "ps", "v", "q", "l", "s", "n"} {
+		out = append(out, hcase{Text: "MATCH (zq) WHERE zq.a = $zz AND zq.b = $" + v + " RETURN zq", Variant: "all:string"})
+	}
+	return out
+}
+
 func runHistory(run *core.Run, items []xlate.Item, n, repeats int) {
 	cases := shortest(items, n)
+	translatable := len(cases)
+	cases = append(cases, probes()...)
 	freshResult := make([]string, len(cases))
 	errs := make([]error, len(cases))
 	var wg sync.WaitGroup
@@ -162,7 +179,7 @@ func runHistory(run *core.Run, items []xlate.Item, n, repeats int) {
 	// all ordered pairs in this (long-lived, already used) process, sharing one kind mapper
 	km := xlate.NewMapper()
 	var pairs, reps int64
-	for i := range cases {
+	for i := range cases[:translatable] {
 		for j := range cases {
 			_ = translateCanonical(cases[i], km)
 			got := translateCanonical(cases[j], km)
@@ -185,7 +202,8 @@ func runHistory(run *core.Run, items []xlate.Item, n, repeats int) {
 			}
 		}
 	}
-	run.Add("history_queries", int64(len(cases)))
+	run.Add("history_queries", int64(translatable))
+	run.Add("history_probe_queries", int64(len(cases)-translatable))
 	run.Add("history_ordered_pairs", pairs)
 	run.Add("history_repetitions", reps)
 	run.Add("evaluations", pairs+reps)
